@@ -11,6 +11,10 @@
 //! 3 the library aborted the process (reported as a C03 violation by the driver).
 
 mod app;
+#[cfg(not(feature = "family"))]
+mod cmdsets_gen;
+#[cfg(feature = "family")]
+#[path = "../target/cmdsets_family.rs"]
 mod cmdsets_gen;
 mod exec;
 mod gen;
